@@ -170,7 +170,15 @@ impl PathRequireMode {
                     );
                 })
                 .collect();
-            potential_aliases.sort_by_cached_key(|(_, alias_path)| alias_path.components().count());
+            // several aliases can designate the same directory: among them the choice must not
+            // depend on the iteration order of the map (the first name in alphabetical order)
+            potential_aliases.sort_by(|(a_name, a_path), (b_name, b_path)| {
+                a_path
+                    .components()
+                    .count()
+                    .cmp(&b_path.components().count())
+                    .then_with(|| b_name.cmp(a_name))
+            });
 
             if let Some((alias_name, alias_path)) = potential_aliases.into_iter().next_back() {
                 let mut new_path = PathBuf::from(alias_name);
